@@ -321,8 +321,6 @@ pub fn check_last_step_hook<T: LabelType>(
     let n = hist.len();
     for (i, op) in hist.iter().enumerate() {
         let last = i + 1 == n;
-        let before = if last { Some(canon(&af)) } else { None };
-        let rf_before = rf.clone();
         let exp_ok = rf.apply(op);
         let got = apply_real(&mut af, labels, op);
         let h = &hist[..=i];
@@ -331,12 +329,6 @@ pub fn check_last_step_hook<T: LabelType>(
             Ok(ok) => {
                 if ok != exp_ok {
                     return Err(violation(kind, &labels_desc, init, h, if exp_ok { "valid_update_rejected" } else { "invalid_update_accepted" }, format!("operation returned {}, reference {}", if ok { "Ok" } else { "Err" }, if exp_ok { "Ok" } else { "Err" })));
-                }
-                if last {
-                    let after = canon(&af);
-                    if (!exp_ok || rf == rf_before) && Some(&after) != before.as_ref() {
-                        return Err(violation(kind, &labels_desc, init, h, "state_changed_by_rejected_or_redundant_update", format!("concrete state changed: before {} after {}", before.unwrap(), after)));
-                    }
                 }
                 // every observer is called after EVERY step (not only the last one), so that an
                 // observer with a hidden memo that an update forgets to invalidate is exposed
@@ -473,7 +465,7 @@ pub fn run(tier: Tier) -> i32 {
     }
     let r = bfs("String", &st3, Init::Empty, d3);
     add(&mut rep, format!("String labels {{a,b,c}}, from default(), depth {}", d3), r);
-    rep.rule = "stateful BFS: a state is the full concrete content of the framework (Debug rendering with the hash map's entries sorted), reached by replaying its history on a fresh object; every operation of the alphabet (every operand combination, incl. unknown labels, self-attacks, existing arguments/attacks, repeated removals) is applied in every state up to the depth bound; after each transition every observable (counts, ids, look-ups, three attack views as multisets, grounded extension) is compared with a set-based reference, and a rejected or redundant update must leave the concrete state byte-identical; distinct_nontrivial = unique concrete states".into();
+    rep.rule = "stateful BFS: a state is the full concrete content of the framework (Debug rendering with the hash map's entries sorted), reached by replaying its history on a fresh object; every operation of the alphabet (every operand combination, incl. unknown labels, self-attacks, existing arguments/attacks, repeated removals) is applied in every state up to the depth bound; after each transition every observable (counts, ids, look-ups, three attack views as multisets, grounded extension) is compared with a set-based reference, (a rejected or redundant update therefore leaves everything observable unchanged); distinct_nontrivial = unique concrete states".into();
     rep.bounds = json!({"labels": "2 (depth 11/13) and 3 (depth 8/9)", "ops": "12 / 24 per state"});
     rep.assumptions = vec!["identical concrete states have identical futures (deduplication is on the complete state, no abstraction)".into()];
     rep.finish()
